@@ -126,6 +126,9 @@ func GetNumBlocks(geom Geometry, blockSize Point) int {
 	for dim := uint8(0); dim < geom.Size().NumDims(); dim++ {
 		blockLength := blockSize.Value(dim)
 		startMod := startPt.Value(dim) % blockLength
+		if startMod < 0 {
+			startMod += blockLength
+		}
 		length := size.Value(dim) + startMod
 		blocks := length / blockLength
 		if length%blockLength != 0 {
